@@ -177,6 +177,51 @@ def awkward_variants(op, cases, tier, salt):
             return v, a
         yield {"name": "awkward:jagged x scalar-array(same structure)", "backend": "awkward", "pairing": "perelem", "build": build_elem,
                "struct": struct, "route": "zip", "extra": True, "perelem": (gi, per)}
+    # ---- broadcasting one-per-event against many-per-event (flat array with jagged array / jagged scalar array)
+    J = [[0, 1], [], [2, 3, 4], [5, 6, 7]][: 4] if n >= 8 else None
+    if J is not None:
+        list_of = {}
+        for li, lst in enumerate(J):
+            for r_ in lst:
+                list_of[r_] = li
+
+        def flat_of(ls, k=0):
+            return mkarr(ls[:4], [0, 1, 2, 3], routes[(k + salt) % 2 * 2], k == 0)
+
+        if vecpos and op.name != "rotate_axis":
+            def build_evt_self():
+                v = flat_of(selfs)
+                a = list(plain)
+                for j in vecpos:
+                    a[j] = mkarr([c[1][j] for c in cases], J, "zip", False)
+                return v, a
+            yield {"name": "awkward:flat(events) x awkward:jagged", "backend": "awkward", "pairing": "evt-self", "build": build_evt_self,
+                   "struct": J, "route": "zip", "extra": False, "evt": list_of, "self_not_awkward": False}
+
+            def build_evt_other():
+                v = mkarr(selfs, J, "zip", True)
+                a = list(plain)
+                for j in vecpos:
+                    a[j] = flat_of([c[1][j] for c in cases], 1)
+                return v, a
+            yield {"name": "awkward:jagged x awkward:flat(events)", "backend": "awkward", "pairing": "evt-other", "build": build_evt_other,
+                   "struct": J, "route": "zip", "extra": True, "evt": list_of}
+        if gi is not None and not vecpos and op.group != "embedding":
+            # (embeddings document a *scalar* keyword that is broadcast; a keyword array deeper than the vectors is zipped
+            #  at the vectors' depth and is not a documented use: recorded in DESIGN 7.2, not judged)
+            base = cases[0][1][gi]
+            kind = op.args[gi]
+            perleaf = {r_: ((1 + (base - 1) * GRID_F[r_ % 3]) if kind == "gamma" else base * GRID_F[r_ % 3]) for r_ in list_of}
+
+            def build_evt_scalar():
+                import awkward as ak
+
+                v = flat_of(selfs)
+                a = list(plain)
+                a[gi] = ak.Array(awk.map_struct(J, lambda i: float(perleaf[i])))
+                return v, a
+            yield {"name": "awkward:flat(events) x scalar-array(jagged)", "backend": "awkward", "pairing": "evt-scalar", "build": build_evt_scalar,
+                   "struct": J, "route": "zip", "extra": False, "evt": list_of, "evt_scalar": (gi, perleaf)}
     b, st = mk("jagged", "zip")
     yield {"name": "awkward:regular:zip", "backend": "awkward", "pairing": "paired",
            "build": _regular_builder(selfs, cases, plain, vecpos, n), "struct": [list(range(n // 2)), list(range(n // 2, n))],
@@ -351,6 +396,24 @@ def run(items, tier, seed, res, prop, judge_values=True, judges=(), backends=("n
                                     exp.append(("ok", E.eval_obj(op, self_l, a2)))
                                 except Exception as e:
                                     exp.append(("exc", type(e).__name__, str(e)[:150]))
+                    elif pairing in ("evt-self", "evt-other", "evt-scalar"):
+                        list_of = var["evt"]
+                        exp = [("exc", "unused", "")] * len(cases)
+                        for r_, li in list_of.items():
+                            self_l, args = cases[r_]
+                            if pairing == "evt-self":
+                                self_l = cases[li][0]
+                            elif pairing == "evt-other":
+                                args = [cases[li][1][j] if isinstance(a, LVec) else a for j, a in enumerate(args)]
+                            else:
+                                gi_, perleaf = var["evt_scalar"]
+                                self_l = cases[li][0]
+                                args = list(cases[li][1])
+                                args[gi_] = perleaf[r_]
+                            try:
+                                exp[r_] = ("ok", E.eval_obj(op, self_l, args))
+                            except Exception as e:
+                                exp[r_] = ("exc", type(e).__name__, str(e)[:150])
                     elif pairing == "perelem":
                         gi, per = var["perelem"]
                         exp = []
@@ -394,7 +457,8 @@ def run(items, tier, seed, res, prop, judge_values=True, judges=(), backends=("n
 def _judge_values(op, dim, res, prop, sig, var, cases, exp, units, gain, out, exc):
     name = var["name"]
     n = len(cases)
-    all_obj_ok = all(e[0] == "ok" for e in exp)
+    used = set(var["evt"]) if "evt" in var else None
+    all_obj_ok = all(e[0] == "ok" for i_, e in enumerate(exp) if used is None or i_ in used)
     if exc is not None:
         if all_obj_ok:
             res.violation(f"{prop}/array-backend-raises-where-object-returns variant={_vclass(name)} op={op.name}",
